@@ -896,22 +896,31 @@ class Recorder:
         self.run.MockApi, self.run.reconcile_resource_function, self.run.reconcile_value_function = self.saved
 
 
-def gen_function(rng):
-    """a Function spec, base inputs and optional current resource, with a label of the intended behaviour"""
+INTENTS = (
+    [("ValueFunction", m, None, None) for m in ("ok", "ok", "ok", "skip", "depSkip", "retry", "permFail")]
+    + [("ResourceFunction", "ok", p, st) for p, st in (
+        ("patch", "absent"), ("recreate", "absent"), ("patch", "same"), ("patch", "same-ready"), ("never", "same-ready"),
+        ("patch", "drift"), ("patch", "drift-status"), ("patch", "drift"), ("recreate", "drift"), ("recreate", "drift-status"),
+        ("never", "drift"), ("recreate", "same-ready"))]
+    + [("ResourceFunction", m, "patch", st) for m, st in (("skip", "absent"), ("depSkip", "drift"), ("retry", "absent"), ("permFail", "same"))]
+)
+
+
+def gen_function(rng, intent=None):
+    """a Function spec, base inputs and optional current resource, built for an intended behaviour"""
+    fkind, mode, policy, state = intent if intent else rng.choice(INTENTS)
     payload = e2e_json(rng, 2, top_dict=True)
-    mode = rng.choice(["ok"] * 8 + ["skip", "depSkip", "retry", "permFail"])
     pre = [
         {"assert": "=inputs.mode != 'skip'", "skip": {"message": "User disabled the Function"}},
         {"assert": "=inputs.mode != 'depSkip'", "depSkip": {"message": "Waiting on Dependency"}},
         {"assert": "=inputs.mode != 'retry'", "retry": {"message": "Not Ready yet", "delay": rng.choice([1, 5, 18, 60])}},
         {"assert": "=inputs.mode != 'permFail'", "permFail": {"message": "Input is INVALID: bad mode"}},
     ]
-    if rng.random() < 0.45:
+    if fkind == "ValueFunction":
         spec = {"preconditions": pre,
                 "return": {"payload": "=inputs.payload", "static": e2e_json(rng, 2), "n": "=inputs.n * 2"}}
         return {"fkind": "ValueFunction", "spec": spec, "inputs": {"mode": mode, "payload": payload, "n": rng.choice([0, 1, 21])},
                 "current": None, "intent": f"vf-{mode}"}
-    policy = rng.choice(["patch", "patch", "recreate", "never"])
     update = {"patch": {"delay": rng.choice([3, 30])}} if policy == "patch" else (
         {"recreate": {"delay": rng.choice([4, 15])}} if policy == "recreate" else {"never": {}})
     body = {"spec": "=inputs.payload", "metadata": {"labels": {"app": "=inputs.app"}}}
@@ -924,7 +933,6 @@ def gen_function(rng):
             "create": {"delay": rng.choice([2, 30])},
             "postconditions": [{"assert": "=has(resource.status.ready)", "retry": {"message": "Waiting for ready-state", "delay": 9}}],
             "return": {"ref": "=resource.metadata.name", "ready": "=resource.status.ready", "echo": "=inputs.payload"}}
-    state = rng.choice(["absent", "absent", "same", "same-ready", "same-ready", "drift", "drift", "drift", "drift-status", "drift-status"])
     inputs = {"mode": mode, "payload": payload, "app": rng.choice(SAFE_STRS[:5]), "name": rng.choice(["n1", "obj-2"])}
     cur = None
     if state != "absent":
@@ -936,8 +944,14 @@ def gen_function(rng):
         if state in ("same-ready", "drift-status"):
             cur["status"] = {"ready": rng.choice([True, "yes", 1])}
         if state.startswith("drift"):
-            pr = perturb(rng, cur["spec"], allow_root_retype=False)
-            cur["spec"] = pr[0] if pr else {"drifted": True}
+            # a live object that lacks a key the target specifies, or holds another leaf value
+            k = rng.choice(list(cur["spec"]))
+            if rng.random() < 0.5 or isinstance(cur["spec"][k], (dict, list)):
+                del cur["spec"][k]
+            else:
+                cur["spec"][k] = fresh_scalar(rng, cur["spec"][k])
+            if rng.random() < 0.3:
+                cur["metadata"]["labels"]["app"] = "some-other-app"
     return {"fkind": "ResourceFunction", "spec": spec, "inputs": inputs, "current": cur,
             "intent": f"rf-{mode}-{policy}-{state}"}
 
@@ -1106,11 +1120,11 @@ def model_assert(frag, tc):
 def e2e_cases(ctx: Ctx):
     """yields (case, truth, passed, label) for every derived assertion of every generated Function"""
     rng = ctx.rng
-    nfun = 45 if ctx.quick() else 900
+    rounds = 3 if ctx.quick() else 45
     loop = asyncio.new_event_loop()
     try:
-        for _ in range(nfun):
-            fn = gen_function(rng)
+        for intent in list(INTENTS) * rounds:
+            fn = gen_function(rng, intent)
             reset_koreo()
             try:
                 fut = loop.run_until_complete(prepare_fut(fn))
@@ -1294,6 +1308,7 @@ def shrink_match(case, still):
 
 def run(ctx: Ctx):
     cases, terms = [], []
+    seen_sigs = set()
 
     def handle(case, truth):
         try:
@@ -1302,8 +1317,12 @@ def run(ctx: Ctx):
             ctx.fail(Failure(signature=f"{case['kind']}: harness could not run the case", what=repr(ex), case=case))
             return
         bad = unit_oracle(case, truth, obs)
+        if bad and bad[0] in seen_sigs:
+            ctx.count(f"oracle-failure-again:{bad[0]}")
+            bad = None
         if bad:
             sig, what = bad
+            seen_sigs.add(sig)
             small = case
             if case["kind"] == "match":
                 def still(c):
